@@ -9,6 +9,7 @@
 //   power-tone   Power: a bin-centred complex tone A e^{i(2 pi k0 t/nfft + phi)} has peak value A^2 (rounding bound as above);
 //                a bin-centred real sinusoid has pxx[k0] = A^2/2 up to the negative-frequency image, whose exact relative size
 //                r = |S(2 k0)| / S(0) (S = transform of the window) is computed in long double: |pxx[k0]/(A^2/2) - 1| <= 2r + r^2;
+//                (this is exactly the bound of theorem welchR_cos_tone in Props/C13.lean, plus the rounding term);
 //                tones with r > 0.004 (bound above 1 %) are counted, not judged
 //   labels       real: f[i] = i/nfft; complex: the f[i] are the nfft distinct lattice frequencies in [-1/2, 1/2];
 //                tone sweep finer than the bin spacing over (0, 1/2) real and (-1/2, 1/2) complex: the listed frequency of the
@@ -212,7 +213,9 @@ template<class T> struct Tr;
 template<> struct Tr<real_t> { static const bool cx = false; static const char* tag() { return "wR"; } static const char* tagd() { return "wRd"; } };
 template<> struct Tr<cmplx_t> { static const bool cx = true; static const char* tag() { return "wC"; } static const char* tagd() { return "wCd"; } };
 
+static std::map<std::pair<bool, int>, int> g_axis_emitted;
 static void emit_axis(bool cx, int nfft, const arr_real& f) {
+    if (g_axis_emitted[{cx, nfft}]++ >= 3) return;   // the axis depends on nfft only; every call's axis is judged by the oracle
     out.corr(std::string(cx ? "fC " : "fR ") + std::to_string(nfft), vh::hxs(f));
 }
 template<class T>
@@ -377,7 +380,7 @@ static void random_sweep(vh::Rng& r) {
         }
     }
     // all nfft x all families x window lengths x sampled overlaps x signal lengths
-    const int reps = g_thorough ? 6 : 1;
+    const int reps = g_thorough ? 10 : 1;
     int which = 0;
     for (int rep = 0; rep < reps; ++rep) {
         for (int nfft : nffts) {
@@ -401,7 +404,7 @@ static void random_sweep(vh::Rng& r) {
                     Cfg c{nfft, fam, L, nov, N, r.range(0, NSIGK - 1)};
                     const bool psd = r.coin();
                     const bool cxin = r.coin();
-                    const bool corr = (long long)seg_count(N, L, nov) * nfft <= (g_thorough ? 300000 : 150000) && N <= 9000 && (g_thorough ? (which % 2 == 0) : true);
+                    const bool corr = (long long)seg_count(N, L, nov) * nfft <= (g_thorough ? 300000 : 150000) && N <= (g_thorough ? 2500 : 9000) && (g_thorough ? (which % 5 == 0) : true);
                     if (cxin) { run_cfg<cmplx_t>(r, c, psd, corr); run_cfg<real_t>(r, c, !psd, false); }
                     else { run_cfg<real_t>(r, c, psd, corr); run_cfg<cmplx_t>(r, c, !psd, false); }
                 }
@@ -409,7 +412,7 @@ static void random_sweep(vh::Rng& r) {
         }
     }
     // full-length signals (10^5 samples)
-    const int nlong = g_thorough ? 24 : 6;
+    const int nlong = g_thorough ? 48 : 6;
     for (int i = 0; i < nlong; ++i) {
         const int nfft = nffts[r.range(0, (int)nffts.size() - 1)];
         const int L = r.coin() ? nfft : r.range(std::max(4, nfft / 2), nfft);
@@ -543,7 +546,7 @@ static void tone_sweeps(vh::Rng& r) {
             const int nseg = 1 + conf % 3;
             // grid finer than the bin spacing: `sub` offsets per bin, never within 0.02 bin of the half-way point
             const int sub = g_thorough ? 5 : 3;
-            long long budget = g_thorough ? (nfft <= 512 ? 1LL << 40 : 1600) : (nfft <= 64 ? 1LL << 40 : 220);
+            long long budget = g_thorough ? (nfft <= 512 ? 1LL << 40 : 5000) : (nfft <= 64 ? 1LL << 40 : 220);
             const long long total = (long long)nfft * sub;
             const double keep = std::min(1.0, (double)budget / (double)total);
             for (int k = 0; k < nfft; ++k) {
@@ -602,7 +605,7 @@ static void power_tones(vh::Rng& r) {
                         arr_cmplx x = tone_c(N, (LD)k0 / nfft, A, phi);
                         std::string ctx = add_field(add_field(ctx_json("power-tone", true, nfft, fam, L, nov, N, -1, false, g_case++), "k0", std::to_string(k0)), "amplitude", jld(A));
                         WelchResult res{arr_real(), arr_real()};
-                        if (check_welch(x, win, nov, nfft, false, ctx, it == 2 && L <= 1024, &res) && res.pxx.size() == nfft) {
+                        if (check_welch(x, win, nov, nfft, false, ctx, it == 2 && L <= 1024 && (!g_thorough || li < 2), &res) && res.pxx.size() == nfft) {
                             LD mx = 0;
                             for (int k = 0; k < nfft; ++k) mx = std::max(mx, (LD)res.pxx[k]);
                             const LD err = fabsl(mx - A * A) / (A * A);
@@ -625,7 +628,7 @@ static void power_tones(vh::Rng& r) {
                         arr_real x = tone_r(N, (LD)k0 / nfft, A, phi);
                         std::string ctx = add_field(add_field(add_field(ctx_json("power-tone", false, nfft, fam, L, nov, N, -1, false, g_case++), "k0", std::to_string(k0)), "amplitude", jld(A)), "image", jld(rr));
                         WelchResult res{arr_real(), arr_real()};
-                        if (check_welch(x, win, nov, nfft, false, ctx, it == 2 && L <= 1024, &res) && res.pxx.size() == nfft / 2 + 1) {
+                        if (check_welch(x, win, nov, nfft, false, ctx, it == 2 && L <= 1024 && (!g_thorough || li < 2), &res) && res.pxx.size() == nfft / 2 + 1) {
                             if (rr > 0.004L) { out.stat("power_tone_real_image_above_bound"); continue; }
                             const LD want = A * A / 2;
                             const LD tol = 2 * rr + rr * rr + rnd + 4 * EPS;
@@ -815,7 +818,7 @@ static void coherence(vh::Rng& r) {
                                            : (int)std::min<long long>(maxseg, 1 + (long long)std::pow((double)maxseg, r.unit()));
                     int N = L + (nseg - 1) * stride + (r.coin() ? r.range(0, stride - 1) : 0);
                     N = std::min(N, 100000);
-                    const bool corr = (long long)seg_count(N, L, nov) * nfft <= 100000 && N <= 6000 && (which % (g_thorough ? 3 : 2) == 0);
+                    const bool corr = (long long)seg_count(N, L, nov) * nfft <= 100000 && N <= (g_thorough ? 2000 : 6000) && (which % (g_thorough ? 4 : 2) == 0);
                     coh_case(r, nfft, fam, L, nov, N, kind, corr);
                 }
     // small windows, every overlap
